@@ -15,7 +15,7 @@ func faultScenarios(c *Ctx, mainThread bool) []e1Spec {
 	sites := []struct {
 		site string
 		nth  int
-	}{{"compute", 0}, {"stream", 0}, {"stream", 1}, {"stream", 2}}
+	}{{"compute", 0}, {"stream", 0}, {"stream", 1}, {"stream", 2}, {"stream-str", 0}, {"stream-str", 2}}
 	for _, cfg := range []struct {
 		jobs         uint
 		blocks, tail int
@@ -59,9 +59,28 @@ func faultScenarios(c *Ctx, mainThread bool) []e1Spec {
 	return specs
 }
 
+// stallScenarios: a task waits for a predecessor that is merely slow (blocked in I/O, descheduled):
+// the waiting task polls the token 2^27 (thorough 2^31) times in a row before anybody else moves.
+// An unbounded wait is unaffected; a wait that gives up after a bounded number of polls is exposed.
+func stallScenarios(c *Ctx) []e1Spec {
+	var specs []e1Spec
+	polls := pick(c, int64(1)<<27, int64(1)<<31)
+	for _, jobs := range []uint{2, 3} {
+		for w := 2; w <= int(jobs); w++ {
+			s := encSpec(fmt.Sprintf("enc j%d %dblk+tail task T%d waits for a slow predecessor", jobs, jobs, w), jobs, int(jobs), 100, -1, "stall", -1)
+			s.StallThread, s.StallPolls = w, polls
+			specs = append(specs, s)
+			s = decSpec(fmt.Sprintf("dec j%d %dblk+tail task T%d waits for a slow predecessor", jobs, jobs, w), jobs, int(jobs), 100, "stall", -1)
+			s.StallThread, s.StallPolls = w, polls
+			specs = append(specs, s)
+		}
+	}
+	return specs
+}
+
 func init() {
 	register("C07", "model_checking", func(c *Ctx) {
-		c.Rule("controlled-scheduler DFS over the real encoder and decoder tasks (jobs 2 and 3, two or three batches; jobs 4 one batch): every interleaving x every fault placement (task t in every batch x {compute phase, 1st/2nd/3rd shared-stream operation}; the calling goroutine's own stream operations; payload damage = failure after the hand-off; end of stream at every position; skipped blocks). Oracles on every execution: exclusive use of the shared stream, increasing block order, no deadlock / livelock (all tasks finish, the call returns), no task starts using the stream after a cancel was signalled, the call during which a task failed returns an error, no panic escapes. states/transitions = abstract protocol states (atomic values, pending op per thread, WaitGroup count, holder) and steps seen")
+		c.Rule("controlled-scheduler DFS over the real encoder and decoder tasks (jobs 2 and 3, two or three batches; jobs 4 one batch): every interleaving x every fault placement (task t in every batch x {compute phase, 1st/2nd/3rd shared-stream operation, failures raised as error values and as plain strings}; a task that waits 2^27 polls for a predecessor that is merely slow; the calling goroutine's own stream operations; payload damage = failure after the hand-off; end of stream at every position; skipped blocks). Oracles on every execution: exclusive use of the shared stream, increasing block order, no deadlock / livelock (all tasks finish, the call returns), no task starts using the stream after a cancel was signalled, the call during which a task failed returns an error, no panic escapes. states/transitions = abstract protocol states (atomic values, pending op per thread, WaitGroup count, holder) and steps seen")
 		c.Assume("Go atomics are sequentially consistent; a failing sink/source surfaces as a panic inside the bitstream operation (that is what Default{Output,Input}BitStream do), which is what the monitored stream injects")
 		var specs []e1Spec
 		// fault-free protocol runs
@@ -94,6 +113,7 @@ func init() {
 			}
 		}
 		specs = append(specs, faultScenarios(c, true)...)
+		specs = append(specs, stallScenarios(c)...)
 		// state-caching exploration: 4 and 5 tasks, two batches, every task x the step that holds the stream
 		specs = append(specs,
 			encSpec("enc j5 5blk+tail protocol state-caching", 5, 5, 100, -1, "cache", -1),
